@@ -6,6 +6,19 @@ PrefetchedCourierServer workers over the simulated transport; a fault plan
 assigns {lost request, lost reply, slow, death before/after, app error} to the
 i-th data-plane call of each worker.  Time is dilated (library clock runs S
 times faster) so that the shipped heartbeat/threshold/deadline logic decides.
+
+Abort scenarios (verdicts are read from the state left behind, never from a
+wall-clock expiry):
+  iterate_abort         one shard fails with an application error (a failing op or
+                        an injected handler error at the i-th call of a worker)
+                        while other shards are in flight; afterwards every worker
+                        must have its capacity back and a second pipeline must run
+                        through each single worker alone.
+  interleaved_failure   run_pipeline_interleaved (in-process source -> remote
+                        stage on the pool -> in-process stage) with the last stage
+                        failing on element k (or not at all).
+  sharded_ignore_error  workers started with ignore_error=True, one record of one
+                        shard raises: only that record may be missing.
 """
 
 from __future__ import annotations
@@ -26,7 +39,10 @@ RULE = (
     'workers, max_parallelism 1-2, T=1-8 uniquely numbered tasks or K=1-6 shards, fault plan). '
     'Fault plans: every single fault kind at every one of the first 4 data-plane calls of every '
     'faultable worker (enumerated), pairs of faults sampled, application errors on chosen tasks; '
-    'the last worker is never faulted (side condition: one worker stays usable). Non-trivial = '
+    'the last worker is never faulted (side condition: one worker stays usable); iterate_abort = W=2-3 '
+    'workers, K=W..W+1 slow shards, an application error at a chosen record or at call 0-2 of a chosen '
+    'worker, then a second pipeline through each worker alone; interleaved_failure = W=1-3, n=40-300 '
+    'elements, in-process last stage failing at element k or fault free. Non-trivial = '
     'the plan has >= 1 fault that actually hit an executed call; distinct = hash of (driver, sizes, '
     'plan)')
 ASSUMPTIONS = [
@@ -35,9 +51,19 @@ ASSUMPTIONS = [
     'a dead worker stays dead for the rest of the case, except for the `restart` fault: the worker is unreachable for 0.4 s real time and then answers again under the same address with its generator state lost',
     'the last worker of the pool is never faulted and the retry budget is not exhausted; if the library nevertheless reports all workers timed out although the transport saw that worker healthy, the case is inconclusive (load), never a violation',
     'non-retriable application errors must surface as an exception whose text names the failing task',
+    'abort scenarios: a worker counts as permanently blocked only if, after the driver returned / raised and every transport call to the pool has returned, its client still lists a pending state (nothing can complete it: the driver closed its event loop); a pool counts as permanently holding workers only if the runner stopped its event loop while the remote stage still waits for coroutine futures of that loop. Anything that merely has not happened yet when the watchdog expires is inconclusive',
+    'sharded_ignore_error: a server started with ignore_error=True skips the failing record only (what iterate(ignore_error=True) does in process): every other batch is delivered and aggregated; a run that raises the application error instead is accepted too',
+    'iterate_abort: after an abort the failing shard is not retried (application errors are not retriable); outputs delivered before the abort must be batches of the reference run',
 ]
 REQUIRED = ['as_completed_cases', 'run_cases', 'sharded_cases', 'late_death_cases', 'no_deadline_cases', 'faults_hit', 'rejoin_cases', 'rejoin_phase2_cases',
-            'tasks_delivered', 'fault_free_cases', 'app_error_cases', 'release_checks']
+            'tasks_delivered', 'fault_free_cases', 'app_error_cases', 'release_checks',
+            'iterate_abort_cases', 'iterate_abort_other_shard_in_flight', 'iterate_abort_capacity_checks',
+            'interleaved_cases', 'interleaved_failure_cases', 'interleaved_fault_free_cases',
+            'interleaved_failure_remote_stage_busy', 'ignore_error_cases']
+# Mechanism keys of the audited root causes (classified by the scenario of the case).
+K_ITER_ABORT = 'iterate-abort-leaks-capacity-placeholder'
+K_INTERLEAVED = 'interleaved-failure-leaves-workers-acquired'
+K_IGNORE_TRUNC = 'ignore-error-server-truncates-shard-after-application-error'
 CHUNK_TIMEOUT_S = {'quick': 500, 'thorough': 3400}
 FAULT_KINDS = ['lost_request', 'lost_reply', 'slow', 'die_before', 'die_after', 'restart']
 
@@ -421,6 +447,387 @@ def run_sharded_rejoin(ctx, runner, case):
     runner.cwork.stop_servers(servers, join_s=0.5)
 
 
+def _collect_aggs(rq, finished, exc):
+  aggs = []
+  if finished and exc is None:
+    try:
+      aggs.append(rq.get(timeout=20))
+    except queue.Empty:
+      pass
+    while not rq.empty():
+      aggs.append(rq.get_nowait())
+  return aggs
+
+
+def run_iterate_abort(ctx, runner, case):
+  """One shard fails with an application error while other shards are in flight;
+  then a second pipeline runs through each worker alone."""
+  from vlib import c06lib, c16lib
+  from ml_metrics._src.chainables import courier_worker, orchestrate
+  W = case['W']
+  c06lib.track_transport_calls(True)   # from the very first call (heartbeat probes too)
+  servers, addrs, raw, pool = runner.make_pool(W, case['par'], case['ibs'])
+  raw_list = [raw[a] for a in addrs]
+  ops = [['slow', {'delay': case['delay']}], ['affine', {'a': 3, 'b': 1}]]
+  fail = case['fail']
+  if fail['kind'] == 'op':
+    ops.append(['failing', {'value': 3 * fail['value'] + 1}])
+  spec = {'n': case['n'], 'rec': case['rec'], 'ops': ops, 'agg': 'sum', 'fused': True,
+          'num_threads': 0}
+  spec2 = {'n': case['n2'], 'rec': case['rec'], 'ops': [['affine', {'a': 3, 'b': 1}]],
+           'agg': 'sum', 'fused': True, 'num_threads': 0}
+  try:
+    pool.wait_until_alive(deadline_secs=HB_THRESHOLD, minimum_num_workers=W)
+    faults = [[fail['worker'], fail['idx'], 'app_error']] if fail['kind'] == 'transport' else []
+    hits = runner.install_plan(raw_list, faults, servers)
+    rq, outs = queue.SimpleQueue(), []
+
+    def go():
+      for b in orchestrate.sharded_pipelines_as_iterator(
+          pool, c06lib.define_pipeline, spec, num_shards=case['K'], result_queue=rq):
+        outs.append(b)
+
+    finished, _, exc = runner.cwork.run_with_watchdog(go, 60)
+    runner.clear_plan()
+    ref_outs, _ = c16lib.reference(dict(spec, ops=ops[:2]))
+    res = {'finished': finished, 'exc': exc, 'outs': list(outs), 'ref_outs': ref_outs,
+           'hits': hits, 'acquired': len(pool.acquired_workers),
+           'locked': sum(1 for w in pool.all_workers if w.is_locked()),
+           'workers': [], 'phase2': []}
+    if not finished:
+      return res
+    # The driver has returned: its event loop thread is joined and the loop closed,
+    # so a pending state that is not a transport call can never complete any more.
+    t0 = time.time()
+    while time.time() - t0 < 5 and c06lib.outstanding_calls(set(addrs)):
+      time.sleep(0.01)
+    for w in pool.all_workers:
+      orphans = c06lib.states_without_transport_call(w)
+      res['workers'].append({'address': w.address, 'alive': bool(w.is_alive),
+                             'pendings': len(w.pendings),
+                             'pending_states_without_transport_call': len(orphans),
+                             'has_capacity': bool(w.has_capacity)})
+    ro2, ra2 = c16lib.reference(spec2)
+    for i, w in enumerate(pool.all_workers):
+      pool2 = courier_worker.WorkerPool([w])
+      p2 = {'worker': i, 'same_object': pool2.all_workers[0] is w,
+            'idle_workers': len(pool2.idle_workers()), 'ran': False}
+      res['phase2'].append(p2)
+      if not p2['same_object'] or not w.is_alive:
+        continue
+      if c06lib.states_without_transport_call(w) and not w.has_capacity:
+        # WorkerPool.iterate only ever submits to idle_workers(): with its single
+        # worker never idle the run cannot start (not executed: it would spin).
+        continue
+      rq2, outs2 = queue.SimpleQueue(), []
+
+      def go2(pool2=pool2, rq2=rq2, outs2=outs2):
+        for b in orchestrate.sharded_pipelines_as_iterator(
+            pool2, c16lib.define_pipeline, spec2, num_shards=2, result_queue=rq2):
+          outs2.append(b)
+
+      fin2, _, exc2 = runner.cwork.run_with_watchdog(go2, 30)
+      p2.update(ran=True, finished=fin2, exc=exc2, outs=list(outs2),
+                aggs=_collect_aggs(rq2, fin2, exc2), ref_outs=ro2, ref_agg=ra2)
+      if not fin2:
+        break
+    return res
+  finally:
+    c06lib.track_transport_calls(False)
+    runner.clear_plan()
+    runner.cwork.stop_servers(servers, join_s=0.5)
+
+
+def judge_iterate_abort(ctx, case, res):
+  from vlib import c06lib
+  from ml_metrics._src.chainables import transform
+  ctx.count('iterate_abort_cases')
+  ctx.count('faults_hit', len(res['hits']))
+  n_rec = -(-case['n'] // case['rec'])
+  in_flight = len(res['outs']) < n_rec - (-(-n_rec // case['K']))
+  if in_flight:
+    ctx.count('iterate_abort_other_shard_in_flight')
+  ctx.case(('iterate_abort', dict(case)), in_flight)
+  if not res['finished']:
+    ctx.inconclusive_case('iterate_abort: phase 1 watchdog', case)
+    return
+  exc = res['exc']
+  text = c06lib.error_chain_text(exc) if exc is not None else ''
+  if exc is None:
+    if case['fail']['kind'] == 'op' or res['hits']:
+      ctx.violation('app_error_swallowed', case, {'n_outs': len(res['outs'])},
+                    mechanism='iterate_abort:app-error-swallowed')
+    else:
+      ctx.inconclusive_case('iterate_abort: the injected error was never reached', case)
+    return
+  if 'All workers timeout' in text:
+    ctx.inconclusive_case('library saw no alive worker (load)', case)
+    return
+  if not any(m in text for m in (c06lib.APP_ERROR_MARK, 'op_failing', 'injected app error')):
+    ctx.violation('app_error_wrong_exception', case, {'error': text[:400]},
+                  mechanism=f'iterate_abort:app-error-other-exception:{type(exc).__name__}')
+  ctx.count('release_checks')
+  want = set(repr(list(b)) for b in res['ref_outs'])
+  phantom = [repr(list(b)) for b in res['outs'] if repr(list(b)) not in want]
+  if phantom:
+    ctx.violation('output_batch_lost_or_phantom', case, {'phantom': phantom[:5]},
+                  mechanism='iterate_abort:phantom-batches')
+  if res['acquired'] or res['locked']:
+    ctx.violation('workers_not_released', case,
+                  {'acquired_by_pool': res['acquired'], 'locked': res['locked']},
+                  mechanism='iterate_abort:workers-not-released:after-raise')
+  ctx.count('iterate_abort_capacity_checks', len(res['workers']))
+  blocked = [w for w in res['workers'] if w['pending_states_without_transport_call']]
+  if blocked:
+    # Classified by the scenario: the driver aborted on an application error and a
+    # client keeps a pending state that no transport call backs.
+    aborted = isinstance(exc, RuntimeError) and 'Failed at' in str(exc)
+    ctx.violation('worker_capacity_not_restored', case,
+                  {'workers': res['workers'],
+                   'idle_workers_seen_by_a_new_pool_over_each_blocked_worker':
+                       [p['idle_workers'] for p in res['phase2']
+                        if res['workers'][p['worker']]['pending_states_without_transport_call']],
+                   'error': text[:160]},
+                  mechanism=K_ITER_ABORT if aborted else 'iterate_abort:pending-state-left')
+  for p2 in res['phase2']:
+    if not p2.get('ran'):
+      continue
+    ctx.count('iterate_abort_phase2_runs')
+    if not p2['finished']:
+      ctx.inconclusive_case('iterate_abort: phase 2 watchdog', case)
+      continue
+    if p2['exc'] is not None:
+      e = p2['exc']
+      t2 = f'{type(e).__name__}: {e}'
+      if 'All workers timeout' in t2:
+        ctx.inconclusive_case('library saw no alive worker (load)', case)
+      else:
+        ctx.violation('driver_raised', case, {'error': t2[:300], 'phase': 2, 'worker': p2['worker']},
+                      mechanism=f'iterate_abort:second-run-raises:{type(e).__name__}')
+      continue
+    want2 = sorted(repr(list(b)) for b in p2['ref_outs'])
+    got2 = sorted(repr(list(b)) for b in p2['outs'])
+    finals = [a for a in p2['aggs'] if isinstance(a, transform.AggregateResult)]
+    if got2 != want2 or len(finals) != 1 or finals[0].agg_result != p2['ref_agg']:
+      ctx.violation('second_run_differs', case,
+                    {'worker': p2['worker'], 'n_got': len(got2), 'n_want': len(want2),
+                     'aggs': repr(p2['aggs'])[:200], 'want_agg': repr(p2['ref_agg'])},
+                    mechanism='iterate_abort:second-run-differs')
+  if len(ctx.samples) < 6 and blocked:
+    ctx.sample({'case': case, 'workers_after_abort': res['workers']})
+
+
+def run_interleaved(ctx, runner, case):
+  """run_pipeline_interleaved: in-process source -> remote stage -> in-process stage."""
+  from vlib import c06lib
+  from ml_metrics._src.chainables import courier_server, orchestrate
+  W = case['W']
+  servers, addrs, raw, pool = runner.make_pool(W, case['par'], 1, call_timeout=0)
+  master = courier_server.CourierServer(runner.cwork.unique('c06master'))
+  try:
+    pool.wait_until_alive(deadline_secs=HB_THRESHOLD, minimum_num_workers=W)
+    pipeline = c06lib.interleaved_pipeline(case['n'], case.get('fail_at'), case.get('delay', 0.0))
+    consumed, box = [], {}
+
+    def go():
+      with orchestrate.run_pipeline_interleaved(
+          pipeline, master_server=master,
+          resources={'apply': orchestrate.RunnerResource(worker_pool=pool)}) as state:
+        box['runner'] = state
+        try:
+          for b in state.result_queue:
+            consumed.append(b)
+        except Exception as e:  # pylint: disable=broad-exception-caught
+          box['consumer_exc'] = e
+          # observed when the failure reaches the consumer, before the runner winds down
+          box['remote_busy_at_failure'] = not state.stages[1].state.done()
+
+    finished, _, exc = runner.cwork.run_with_watchdog(go, 90)
+    res = {'finished': finished, 'exc': exc, 'consumed': list(consumed),
+           'consumer_exc': box.get('consumer_exc'), 'released': False, 'stuck': None,
+           'remote_busy_at_raise': False}
+    state = box.get('runner')
+    if not finished or state is None:
+      return res
+    remote = state.stages[1]
+    res['remote_busy_at_raise'] = bool(box.get('remote_busy_at_failure'))
+
+    def snapshot():
+      frames = c06lib.frames_named(list(state.thread_pool._threads),  # pylint: disable=protected-access
+                                   'iterate_with_worker_pool')
+      iterating = {}
+      for fr in frames:
+        iterating.update(fr.f_locals.get('iterating') or {})
+      return {'acquired': sorted(w.address for w in pool.acquired_workers),
+              'locked': sorted(w.address for w in pool.all_workers if w.is_locked()),
+              'event_loop_running': state.event_loop.is_running(),
+              'remote_stage_done': remote.state.done(),
+              'stage_frame_found': bool(frames),
+              'unfinished_remote_iterations': sorted(
+                  w.address for w, st in iterating.items() if not st.done()),
+              '_futures': [st for st in iterating.values() if not st.done()]}
+
+    def is_stuck(snap):
+      # The remote stage waits for coroutine futures of an event loop that was stopped.
+      return bool(snap['acquired'] and not snap['event_loop_running']
+                  and not snap['remote_stage_done'] and snap['stage_frame_found']
+                  and snap['unfinished_remote_iterations']
+                  and set(snap['acquired']) <= set(snap['unfinished_remote_iterations']))
+
+    t0 = time.time()
+    snap = snapshot()
+    while time.time() - t0 < 20:
+      snap = snapshot()
+      if not snap['acquired'] and not snap['locked']:
+        res['released'] = True
+        break
+      if is_stuck(snap):
+        time.sleep(0.3)
+        again = snapshot()
+        if is_stuck(again) and again['unfinished_remote_iterations'] == snap['unfinished_remote_iterations']:
+          res['stuck'] = {k: v for k, v in again.items() if k != '_futures'}
+          # unblock the stage thread (it would spin for the rest of the chunk)
+          for f in again['_futures']:
+            f.cancel()
+          break
+      time.sleep(0.02)
+    res['last'] = {k: v for k, v in snap.items() if k != '_futures'}
+    return res
+  finally:
+    runner.cwork.stop_servers(servers + [master], join_s=0.5)
+
+
+def judge_interleaved(ctx, case, res):
+  from vlib import c06lib
+  fail_at = case.get('fail_at')
+  ctx.count('interleaved_cases')
+  ctx.count('interleaved_failure_cases' if fail_at is not None else 'interleaved_fault_free_cases')
+  if fail_at is None:
+    ctx.count('fault_free_cases')
+  if res.get('remote_busy_at_raise') and fail_at is not None:
+    ctx.count('interleaved_failure_remote_stage_busy')
+  ctx.case(('interleaved_failure', dict(case)), fail_at is not None and res.get('remote_busy_at_raise'))
+  if not res['finished']:
+    ctx.inconclusive_case('interleaved: watchdog', case)
+    return
+  exc = res['exc']
+  text = c06lib.error_chain_text(exc) if exc is not None else ''
+  ref = c06lib.interleaved_reference(case['n'])
+  got = sorted(res['consumed'])
+  ctx.count('tasks_delivered', len(got))
+  if fail_at is None:
+    if exc is not None or res['consumer_exc'] is not None:
+      ctx.violation('driver_raised', case, {'error': (text or repr(res['consumer_exc']))[:300]},
+                    mechanism=f'interleaved:fault-free-raises:{type(exc or res["consumer_exc"]).__name__}')
+    elif got != ref:
+      ctx.violation('results_differ', case, {'n_got': len(got), 'n_want': len(ref)},
+                    mechanism='interleaved:fault-free-results-differ')
+  else:
+    if exc is None:
+      ctx.violation('app_error_swallowed', case, {'n_consumed': len(got)},
+                    mechanism='interleaved_failure:app-error-swallowed')
+    elif not any(m in text for m in (c06lib.APP_ERROR_MARK, 'post_fn')):
+      ctx.violation('app_error_wrong_exception', case, {'error': text[:400]},
+                    mechanism=f'interleaved_failure:app-error-other-exception:{type(exc).__name__}')
+    if len(set(got)) != len(got) or not set(got) <= set(ref):
+      ctx.violation('duplicate_or_phantom_result', case, {'n_got': len(got)},
+                    mechanism='interleaved_failure:duplicates-or-phantoms')
+  ctx.count('release_checks')
+  if res['released']:
+    return
+  if res['stuck']:
+    audited = (fail_at is not None and exc is not None and 'stage' in str(exc)
+               and 'failed' in str(exc))
+    ctx.violation('workers_not_released', case,
+                  {'state': res['stuck'], 'error': text[:200]},
+                  mechanism=K_INTERLEAVED if audited
+                  else 'interleaved:workers-not-released:after-' + ('raise' if exc else 'return'))
+    if len(ctx.samples) < 6:
+      ctx.sample({'case': case, 'state_after_raise': res['stuck']})
+    return
+  ctx.inconclusive_case('interleaved: workers still acquired at the watchdog, the runner is still active', case)
+
+
+def run_sharded_ignore_error(ctx, runner, case):
+  """Workers skip application errors (ignore_error=True); one record raises."""
+  from vlib import c06lib, c16lib
+  from ml_metrics._src.chainables import courier_worker, orchestrate
+  W = case['W']
+  servers = runner.cwork.start_servers(W, 'c06ie', ignore_error=True)
+  try:
+    pool = courier_worker.WorkerPool(
+        [s.address for s in servers], call_timeout=CALL_TIMEOUT, max_parallelism=1,
+        heartbeat_threshold_secs=HB_THRESHOLD, iterate_batch_size=case['ibs'])
+    pool.wait_until_alive(deadline_secs=HB_THRESHOLD, minimum_num_workers=W)
+    recs = c16lib.records(case['n'], case['rec'])
+    bad = recs[case['bad_record']]
+    ops = [['affine', {'a': 3, 'b': 1}], ['failing', {'value': 3 * bad[0] + 1}]]
+    spec = {'n': case['n'], 'rec': case['rec'], 'ops': ops, 'agg': 'sum', 'fused': True,
+            'num_threads': 0}
+    rq, outs = queue.SimpleQueue(), []
+
+    def go():
+      for b in orchestrate.sharded_pipelines_as_iterator(
+          pool, c06lib.define_pipeline, spec, num_shards=case['K'], result_queue=rq):
+        outs.append(b)
+
+    finished, _, exc = runner.cwork.run_with_watchdog(go, 60)
+    ref_all, _ = c16lib.reference(dict(spec, ops=ops[:1]))
+    keep = [o for i, o in enumerate(ref_all) if i != case['bad_record']]
+    agg = c16lib.SumCount()
+    st = agg.create_state()
+    for o in keep:
+      st = agg.update_state(st, o)
+    return {'finished': finished, 'exc': exc, 'outs': list(outs),
+            'aggs': _collect_aggs(rq, finished, exc), 'ref_all': ref_all, 'ref_keep': keep,
+            'ref_agg': {'agg': agg.get_result(st)},
+            'acquired': len(pool.acquired_workers),
+            'locked': sum(1 for w in pool.all_workers if w.is_locked())}
+  finally:
+    runner.cwork.stop_servers(servers, join_s=0.5)
+
+
+def judge_sharded_ignore_error(ctx, case, res):
+  from vlib import c06lib
+  from ml_metrics._src.chainables import transform
+  ctx.count('ignore_error_cases')
+  ctx.count('app_error_cases')
+  ctx.case(('sharded_ignore_error', dict(case)), True)
+  if not res['finished']:
+    ctx.inconclusive_case('sharded_ignore_error: watchdog', case)
+    return
+  exc = res['exc']
+  ctx.count('release_checks')
+  if res['acquired'] or res['locked']:
+    ctx.violation('workers_not_released', case, {'acquired_by_pool': res['acquired'], 'locked': res['locked']},
+                  mechanism='sharded_ignore_error:workers-not-released')
+  if exc is not None:
+    text = c06lib.error_chain_text(exc)
+    if 'All workers timeout' in text:
+      ctx.inconclusive_case('library saw no alive worker (load)', case)
+    elif not any(m in text for m in (c06lib.APP_ERROR_MARK, 'op_failing')):
+      ctx.violation('driver_raised', case, {'error': text[:300]},
+                    mechanism=f'sharded_ignore_error:raises:{type(exc).__name__}')
+    return   # the application error surfaced: nothing is silently missing
+  order = {repr(list(o)): i for i, o in enumerate(res['ref_all'])}
+  got = [repr(list(b)) for b in res['outs']]
+  ctx.count('tasks_delivered', len(got))
+  missing = sorted(order[repr(list(o))] for o in res['ref_keep'] if repr(list(o)) not in set(got))
+  phantom = [g for g in set(got) if g not in order or order[g] == case['bad_record']]
+  finals = [a for a in res['aggs'] if isinstance(a, transform.AggregateResult)]
+  agg_ok = len(finals) == 1 and finals[0].agg_result == res['ref_agg']
+  if missing or phantom or not agg_ok:
+    f = case['bad_record']
+    # audited signature: exactly the records that directly follow the failing one
+    # (the rest of its contiguous shard) are gone, nothing else
+    tail = bool(missing) and missing == list(range(f + 1, f + 1 + len(missing))) and not phantom
+    ctx.violation('records_after_ignored_error_silently_dropped' if tail else 'output_batch_lost_or_phantom',
+                  case, {'failing_record': f, 'missing_records': missing[:12], 'phantom': phantom[:5],
+                         'aggregate': repr([a.agg_result for a in finals])[:160],
+                         'want_aggregate': repr(res['ref_agg'])},
+                  mechanism=K_IGNORE_TRUNC if tail else 'sharded_ignore_error:batches-differ')
+
+
 def judge_phase2(ctx, case, res):
   p2 = res.get('phase2')
   if not p2:
@@ -590,6 +997,15 @@ def judge(ctx, case, res):
 
 
 def run_one(ctx, runner, case):
+  if case['driver'] == 'iterate_abort':
+    judge_iterate_abort(ctx, case, run_iterate_abort(ctx, runner, case))
+    return
+  if case['driver'] == 'interleaved_failure':
+    judge_interleaved(ctx, case, run_interleaved(ctx, runner, case))
+    return
+  if case['driver'] == 'sharded_ignore_error':
+    judge_sharded_ignore_error(ctx, case, run_sharded_ignore_error(ctx, runner, case))
+    return
   if case['driver'] == 'as_completed':
     res = run_as_completed(ctx, runner, case)
   elif case['driver'] == 'run':
@@ -633,6 +1049,31 @@ def run_chunk(ctx, spec):
                   'idx': rng.randint(1, 3), 'K': W + rng.randint(0, 2),
                   'n': rng.choice([12, 20, 30]), 'n2': rng.choice([4, 9]),
                   'rec': rng.randint(1, 2), 'ibs': rng.randint(1, 2)})
+  # -- abort scenarios -----------------------------------------------------------
+  for _ in range(1 if spec['tier'] == 'quick' else 8):
+    W = rng.randint(2, 3)
+    K = W + rng.randint(0, 1)
+    rec = rng.randint(1, 2)
+    n = rec * K * rng.randint(8, 14)
+    if rng.random() < 0.7:
+      fail = {'kind': 'op', 'value': rng.randrange(n)}
+    else:
+      fail = {'kind': 'transport', 'worker': rng.randrange(W), 'idx': rng.randint(0, 2)}
+    cases.append({'driver': 'iterate_abort', 'W': W, 'par': rng.choice([1, 1, 1, 2]),
+                  'ibs': rng.randint(1, 2), 'K': K, 'n': n, 'rec': rec, 'fail': fail,
+                  'delay': rng.choice([0.004, 0.008]), 'n2': rng.choice([4, 9]), 'faults': []})
+  for _ in range(1 if spec['tier'] == 'quick' else 8):
+    n = rng.choice([40, 80, 150, 300])
+    cases.append({'driver': 'interleaved_failure', 'W': rng.randint(1, 3), 'par': 1, 'n': n,
+                  'fail_at': None if rng.random() < 0.25 else rng.randrange(n),
+                  'delay': rng.choice([0.0, 0.0, 0.001]), 'faults': []})
+  if spec['tier'] != 'quick' or spec['chunk'] % 2 == 1:
+    W = rng.randint(1, 3)
+    K = W + rng.randint(0, 2)
+    rec = rng.randint(1, 3)
+    n_rec = K * rng.randint(2, 6)
+    cases.append({'driver': 'sharded_ignore_error', 'W': W, 'K': K, 'rec': rec, 'n': rec * n_rec,
+                  'bad_record': rng.randrange(n_rec), 'ibs': rng.randint(1, 3), 'faults': []})
   for case in cases:
     run_one(ctx, runner, case)
   ctx.notes['scale'] = SCALE
